@@ -148,6 +148,7 @@ type c08Case struct {
 	Times int     `json:"times,omitempty"` // deliver this many times (the ICMPv6 handler processes one RA in four)
 	Dec   string  `json:"decoder,omitempty"`
 	Log   int     `json:"log,omitempty"` // level of the package loggers while the frame is processed: 0 info, 1 error, 2 debug
+	Aged  bool    `json:"aged,omitempty"` // the frame comes twice, five minutes apart (the handler's mDNS response cache has expired: dns_naming.VerifExpireMDNSCache)
 }
 
 func c08Run(tb drv.TB, rec *drv.Rec, sub string, c c08Case) {
@@ -164,9 +165,15 @@ func c08Run(tb drv.TB, rec *drv.Rec, sub string, c c08Case) {
 	}
 	buf := make([]byte, packet.EthMaxSize+len(c.Data))
 	var entered string
+	if c.Aged && times < 2 {
+		times = 2
+	}
 	for k := 0; k < times; k++ {
 		n := copy(buf, c.Data)
 		var herr error
+		if c.Aged && k > 0 {
+			e.dns.VerifExpireMDNSCache()
+		}
 		if p, sig, st := drv.Catch(func() { entered, herr = e.dispatch(buf[:n]) }); p != nil {
 			c08E = nil // a panic may have left a handler lock held: never reuse this environment
 			go e.close()
@@ -395,7 +402,7 @@ func TestC08(t *testing.T) {
 			b, mut = gen.Mutate(t, b)
 		}
 		rec.Class(fmt.Sprintf("gen %s mutated=%v", class, mut != ""))
-		return c08Case{Data: b, Times: times, Log: rapid.SampledFrom([]int{0, 0, 0, 1, 2, 2}).Draw(t, "log")}
+		return c08Case{Data: b, Times: times, Log: rapid.SampledFrom([]int{0, 0, 0, 1, 2, 2}).Draw(t, "log"), Aged: rapid.IntRange(0, 5).Draw(t, "aged") == 0}
 	}, func(tb drv.TB, c c08Case) { c08Run(tb, rec, "frames", c) })
 
 	// truncation at every offset of a drawn message
